@@ -24,6 +24,7 @@ class QueueCheck:
         s.cap = world.devices[s.dev]['queue']
         s.depth = params['depth']
         s.one_buffer = params.get('one_buffer', False)
+        s.process = params.get('process')            # None | chunk size: the messages are streamed through process::<64>
         s.twin = params.get('twin', False)
         s.t1 = world.devices[s.dev]['cmds'][0]['cmd'] == 'A:B'
 
@@ -51,6 +52,8 @@ class QueueCheck:
             if e[0] == 'unit':
                 err = mk_error(e[1])
                 return list(str(w.error_number(err)).encode()) + [44, 34] + list(deref(w.error_text(err)).items()) + [34]
+            if isinstance(e[1], int):
+                return list(str(e[1]).encode()) + [44, 34] + list(b'cu') + [34]
             return [Token('int', e[1], 'i16'), 44, 34] + list(b'cu') + [34]
 
         def pop():
@@ -65,7 +68,8 @@ class QueueCheck:
                 msgs.append(valid[:-1] + b' 1\n')
                 push(('unit', 'UnexpectedNumberOfParameters'))
             elif op == 'custom':
-                n = z3.BitVec(f'cn{k}', 16)
+                # (through process the response goes into a capacity-limited buffer: a concrete number keeps its length known)
+                n = z3.BitVec(f'cn{k}', 16) if not s.process else -77 - k
                 s.customs.append(n)
                 script[calls] = ('custom', n, list(b'cu'))
                 calls += 1
@@ -93,7 +97,12 @@ class QueueCheck:
         dev.f[0].script.update(script)
         wr = PassWriter()
         s.msgs = msgs
-        if s.one_buffer:
+        if s.process:
+            from ..world import ScriptAdapter
+            ad = ScriptAdapter(list(b''.join(msgs)), tail=s.process)
+            w.process(dev, 64, ad)
+            wr.items = list(ad.out)
+        elif s.one_buffer:
             w.run(dev, list(b''.join(msgs)), wr)
         else:
             for m in msgs:
@@ -122,9 +131,9 @@ class QueueCheck:
             rule = out[0].upper()
         if v:
             m = v[1] if v[1] is not None else ex.path_model()
-            nums = [m.eval(n, model_completion=True).as_signed_long() for n in s.customs]
-            rec['violations'] = [{'rule': rule, 'what': f'{v[0]}; operations {s.ops} on {s.dev} (capacity {s.cap})' + (' in one buffer' if s.one_buffer else ''), 'input': b''.join(s.msgs).hex(),
-                                  'messages': [mm.hex() for mm in s.msgs], 'device': s.dev, 'ops': s.ops, 'custom_numbers': nums, 'one_buffer': s.one_buffer,
+            nums = [n if isinstance(n, int) else m.eval(n, model_completion=True).as_signed_long() for n in s.customs]
+            rec['violations'] = [{'rule': rule, 'what': f'{v[0]}; operations {s.ops} on {s.dev} (capacity {s.cap})' + (' in one buffer' if s.one_buffer else '') + (f' through process::<64>, {s.process} bytes per read' if s.process else ''), 'input': b''.join(s.msgs).hex(),
+                                  'messages': [mm.hex() for mm in s.msgs], 'device': s.dev, 'ops': s.ops, 'custom_numbers': nums, 'one_buffer': s.one_buffer, 'process': s.process,
                                   'role': f'{rule}:cap{s.cap}'}]
         if hash(tuple(map(str, ex.decisions))) % 257 == 0:
             rec['sample'] = {'device': s.dev, 'operations': s.ops}
